@@ -106,7 +106,7 @@ class Extracted:
         self.kind = kind
         self.lineno = node.lineno
         self.end_lineno = node.end_lineno
-        seg = ast.get_source_segment(mod.source, node) or ""
+        seg = ast.get_source_segment(mod.source, getattr(node, "source_node", node)) or ""
         self.source = seg
         self.sha256 = hashlib.sha256(seg.encode()).hexdigest()
         if isinstance(node, ast.Lambda):
@@ -200,6 +200,26 @@ def extract(target):
         else:
             raise ExtractError("%s: %s is not a class" % (target, node.name))
     for nm in nested:
+        if nm.startswith("loop#"):
+            # the body of the k-th loop (source order, own loops only) as a parameterless function whose
+            # free variables (loop targets included) are supplied by the contract's closure
+            k = int(nm[5:])
+            own = [n for n in ast.walk(node) if isinstance(n, (ast.For, ast.While))]
+            own.sort(key=lambda n: (n.lineno, n.col_offset))
+            if not 1 <= k <= len(own):
+                raise ExtractError("%s: loop %d not found" % (target, k))
+            loop = own[k - 1]
+            fn = ast.FunctionDef(name="loop%d_body" % k, args=ast.arguments(posonlyargs=[], args=[], vararg=None, kwonlyargs=[],
+                                                                              kw_defaults=[], kwarg=None, defaults=[]),
+                                 body=list(loop.body), decorator_list=[], returns=None, type_comment=None)
+            ast.copy_location(fn, loop)
+            fn.end_lineno = loop.end_lineno
+            fn.end_col_offset = loop.end_col_offset
+            fn.loop_target = loop.target if isinstance(loop, ast.For) else None
+            fn.loop_iter = loop.iter if isinstance(loop, ast.For) else None
+            fn.source_node = loop
+            node = fn
+            continue
         if nm.startswith("lambda"):
             lam = _find_lambda(node, nm)
             if lam is None:
